@@ -12,7 +12,7 @@ T = {  # id: (category, text, note, technique, design_ref)
   TRUST + 'Field values outside the alphabets in *combination* are not covered (per-field exhaustive only).',
   'exhaustive bounded enumeration of inputs against a spec-derived reference codec', 'DESIGN.md 4 C01'),
  'C06': ('model_checking',
-  'Explicit-state search over (bytes consumed, complete framer snapshot, deliveries): every transition is one real processIncomingPacket call, the graph is explored to closure, so every one of the 2^(n-1) chunkings (plus empty reads) of each listed stream of valid frames is covered exactly; oracle = deliveries of the same framer fed one frame per read. Streams of 2-3 maximum-size frames (longer than any single ADU) are covered with every chunking of <= 2 cuts (thorough: every pair of cut positions; 3 cuts from a boundary menu).',
+  'Explicit-state search over (bytes consumed, complete framer snapshot, deliveries): every transition is one real processIncomingPacket call, the graph is explored to closure, so every one of the 2^(n-1) chunkings (plus empty reads) of each listed stream of valid frames is covered exactly; oracle = deliveries of the same framer fed one frame per read. Streams of 2-3 maximum-size frames (longer than any single ADU) are covered with every chunking of <= 2 cuts (thorough: every pair of cut positions; 3 cuts from a boundary menu); a stream of 12 of the shortest frames with every chunking of <= 1 (thorough 2) cuts.',
   TRUST + 'Streams are finite and listed (all single frames, all ordered pairs, triples/quads over mixes); payload contents are the catalogue values; the framer is assumed to hold no state outside vars(framer) (unknown attribute types abort the check).',
   'explicit-state BFS of the real framer over all chunk schedules (state = snapshot, closure reached)', 'DESIGN.md 4 C06'),
 }
@@ -40,7 +40,7 @@ man = dict(version=1, setup_cmd='/venv/bin/python -B vcheck.py selftest',
            engines=[dict(name='vcheck', path='/verif/vcheck.py', serves_properties=built,
                          kind_free_text='hand-written explicit-state / deviation-bounded / thread-schedule explorers (mc/) driving the real pymodbus objects; spec-derived reference models in ref/')],
            checks=[chk(p) for p in built],
-           notes='See DESIGN.md. Checks import pymodbus from /repo working tree (VERIF_REPO overrides) in a fresh interpreter per run; nothing is built.',
+           notes='See DESIGN.md. Every thorough command also repeats the quick exploration with the library debug logging switched on (evidence: coverage.debug_logging_pass). Checks import pymodbus from /repo working tree (VERIF_REPO overrides) in a fresh interpreter per run; nothing is built.',
            not_applicable=[dict(property_id=p['id'], reason='check not built yet (work in progress, DESIGN.md section 9); no claim is made for this property')
                            for p in props if p['id'] not in built])
 json.dump(man, open(os.path.join(HERE, 'MANIFEST.json'), 'w'), indent=1)
